@@ -121,13 +121,15 @@ class World:
 
     def add_consumer(self, init_mdib: bool = True, validate: bool | None = None, ssl_consumer=None,  # noqa: PLR0913
                      force_ssl_connect: bool = False, shared_server=None, not_subscribed_actions=None,
-                     alternative_hostname=None, own_server: bool = False, soap_client_class=None):
+                     alternative_hostname=None, own_server: bool = False, soap_client_class=None,
+                     deferred: bool = False):
         from sdc11073.consumer.consumerimpl import SdcConsumer, default_components_factory
         from sdc11073.dispatch import RequestDispatcher
         from sdc11073.mdib.consumermdib import ConsumerMdib
         comps = default_components_factory()
         comps.soap_client_class = soap_client_class or L.LoopbackSoapClient
-        comps.action_dispatcher_class = RequestDispatcher  # notifications are handled in the delivering thread
+        if not deferred:
+            comps.action_dispatcher_class = RequestDispatcher  # notifications are handled in the delivering thread
         consumer = SdcConsumer(self.provider_address, self.mdib.sdc_definitions, ssl_consumer,
                                validate=self.validate if validate is None else validate, components=comps,
                                epr=uuid.UUID(int=0x9999 + L.NET.new_port()), force_ssl_connect=force_ssl_connect,
